@@ -771,6 +771,144 @@ def _map_signatures(model, rep):
                      fn.lineno)
 
 
+def _newton(model: Model, rep):
+    """The iterative inverse of the isoparametric map (R5).
+
+    Convergence itself is numerical and not decided.  Decided: (a) the step
+    is invDF(X) (x - F(X)) at the current iterate and is added to it,
+    (b) every addition / comparison / clipping bound in the routine is
+    dimensionally homogeneous - in particular the stopping test compares a
+    dimensionless quantity with the dimensionless tolerance, so that the
+    outcome does not depend on the unit of length of the mesh, (c) a value
+    is returned only under the stopping test; running out of iterations
+    raises."""
+    from ..dims import ANY, DimEval, show
+    R5 = "C10-R5"
+    fn = model.func(ISO, "MappingIsoparametric.invF")
+    mod = model.modules[ISO]
+    node = fn.node
+    qn = "MappingIsoparametric.invF"
+    a = node.args
+    params = [x.arg for x in a.args]
+    if params[:2] != ["self", "x"]:
+        raise AnalysisError("invF: signature")
+    env = {"x": Fraction(1), "tind": ANY}
+    ndef = len(a.defaults)
+    for p_, d_ in zip(params[len(params) - ndef:], a.defaults):
+        if p_ in env:
+            continue
+        if isinstance(d_, ast.Constant) and isinstance(d_.value,
+                                                       (int, float)):
+            # a number fixed in the signature: independent of the mesh
+            env[p_] = Fraction(0)
+        elif isinstance(d_, ast.Constant) and d_.value is None:
+            env[p_] = ANY
+        else:
+            raise AnalysisError(f"invF: default of {p_}")
+    ev = DimEval(api={"F": Fraction(1), "DF": Fraction(1),
+                      "invDF": Fraction(-1), "Fmap": Fraction(1),
+                      "J": Fraction(1)},
+                 attrs={"dim": ANY},
+                 dotted=lambda e: model.dotted(mod, e))
+    ev.run(node.body, env)
+    for ex in ev.failed:
+        rep.fail(R5, fn.path, qn, "invF:homogeneous:" + src(ex.node)[:60],
+                 f"{ex.what} - the test depends on the unit of length of "
+                 f"the mesh (tolerances of this routine are plain numbers)",
+                 ex.node.lineno)
+    for n_, what, d in ev.checked:
+        rep.ok(R5, f"invF:homogeneous:{what}:{src(n_)[:50]}",
+               f"{what} of {show(d)} quantities")
+    # (a) Newton step
+    steps = [n for n in ast.walk(node) if isinstance(n, ast.Call)
+             and model.dotted(mod, n.func) == "numpy.einsum"]
+    if len(steps) != 1:
+        raise AnalysisError(f"invF: {len(steps)} einsum calls, 1 expected")
+    st = steps[0]
+    roles = iter(["invDF", "r"])
+    c = einsum_call(st, lambda n: next(roles, None),
+                    lambda e: model.dotted(mod, e))
+    want = C("invDF:ijkl,r:jkl->ikl")
+    names = {}
+    for s_ in walk_no_nested(node):
+        if isinstance(s_, ast.Assign) and len(s_.targets) == 1 and \
+                isinstance(s_.targets[0], ast.Name):
+            names.setdefault(s_.targets[0].id, []).append(s_.value)
+
+    def one(nm):
+        v = names.get(nm, [])
+        return v[-1] if v else None
+    ops = st.args[1:]
+    ok_ops = (len(ops) == 2 and isinstance(ops[0], ast.Name)
+              and one(ops[0].id) is not None
+              and src(one(ops[0].id)).replace(" ", "")
+              in ("self.invDF(X,tind)", "self.invDF(X,tind=tind)"))
+    res = ops[1] if len(ops) == 2 else None
+    ok_res = (isinstance(res, ast.BinOp) and isinstance(res.op, ast.Sub)
+              and src(res.left) == "x" and isinstance(res.right, ast.Name)
+              and one(res.right.id) is not None
+              and src(one(res.right.id)).replace(" ", "")
+              in ("self.F(X,tind)", "self.F(X,tind=tind)"))
+    if c == want and ok_ops and ok_res:
+        rep.ok(R5, "invF:step", "step = invDF(X, tind) . (x - F(X, tind)) "
+               "contracted over the physical index")
+    else:
+        rep.fail(R5, fn.path, qn, "invF:step",
+                 f"the Newton step is einsum({src(st.args[0])}, "
+                 f"{', '.join(src(o) for o in ops)}): expected invDF at the "
+                 f"current iterate applied to the residual x - F(X)",
+                 st.lineno)
+    # update X <- X + dX (possibly clipped to the reference bounding box)
+    stepname = None
+    for nm, vals in names.items():
+        if any(v is st for v in vals):
+            stepname = nm
+    upd = [v for v in names.get("X", [])
+           if any(isinstance(n, ast.Name) and n.id == stepname
+                  for n in ast.walk(v))]
+    good = False
+    for v in upd:
+        for n in ast.walk(v):
+            if isinstance(n, ast.BinOp) and isinstance(n.op, ast.Add) and \
+                    {src(n.left), src(n.right)} == {"X", stepname}:
+                good = True
+    if good:
+        rep.ok(R5, "invF:update", f"X <- X + {stepname}")
+    else:
+        rep.fail(R5, fn.path, qn, "invF:update",
+                 f"the iterate is not updated by X + {stepname}",
+                 fn.lineno)
+    # (c) exits
+    loops = [n for n in node.body if isinstance(n, (ast.For, ast.While))]
+    if len(loops) != 1:
+        raise AnalysisError("invF: one iteration loop expected")
+    lp = loops[0]
+    rets = [n for n in walk_no_nested(node) if isinstance(n, ast.Return)]
+    bad = []
+    for r in rets:
+        guard = None
+        for n in ast.walk(lp):
+            if isinstance(n, ast.If) and any(r is x for b in n.body
+                                             for x in ast.walk(b)):
+                guard = n
+        has_cmp = guard is not None and any(
+            isinstance(n, ast.Compare) and any(
+                isinstance(m, ast.Name) and m.id == "newton_tol"
+                for m in ast.walk(n)) for n in ast.walk(guard.test))
+        if not has_cmp:
+            bad.append(r)
+    after = node.body[node.body.index(lp) + 1:]
+    falls = not (after and isinstance(after[-1], ast.Raise)) or lp.orelse
+    if rets and not bad and not falls:
+        rep.ok(R5, "invF:exits", f"{len(rets)} return(s), each under the "
+               "tolerance test; exhausting the iterations raises")
+    else:
+        rep.fail(R5, fn.path, qn, "invF:exits",
+                 "a value can be returned without the stopping test having "
+                 "passed (unconverged iterate returned silently)",
+                 (bad[0].lineno if bad else fn.lineno))
+
+
 def run(model: Model, rep, tier: str) -> None:
     rep.rule("C10-R1", "determinants / inverses / surface factors are the "
              "Leibniz / adjugate / cross-product identities; maps send "
@@ -783,7 +921,12 @@ def run(model: Model, rep, tier: str) -> None:
              "shared guard")
     rep.rule("C10-R4", "F = A X + b, invF = invA (x - b), G = B X + c; "
              "Jacobian evaluators broadcast the same matrices")
+    rep.rule("C10-R5", "iterative inverse: Newton step invDF (x - F) added "
+             "to the iterate; all sums / comparisons dimensionally "
+             "homogeneous (scale-free stopping test); values returned only "
+             "under the test")
     refdoms = load_refdoms(model)
+    _newton(model, rep)
     _affine_algebra(model, rep, refdoms)
     _iso_algebra(model, rep)
     _refdom_normals(rep, refdoms)
@@ -795,11 +938,32 @@ def run(model: Model, rep, tier: str) -> None:
     rep.require_min("C10-R2", 30)
     rep.require_min("C10-R3", 8)
     rep.require_min("C10-R4", 9)
+    rep.require_min("C10-R5", 6)
 
 
 _A, _I, _R = ("skfem/mapping/mapping_affine.py",
               "skfem/mapping/mapping_isoparametric.py", "skfem/refdom.py")
 MUTANTS = [
+    ("Newton inverse stops on the physical residual (scale dependent)",
+     (_I, "            if (np.linalg.norm(dX, 1, (0, 2)) < newton_tol).all():",
+      "            if (np.linalg.norm(x - F, 1, (0, 2)) < newton_tol).all():"),
+     "C10-R5"),
+    ("Newton residual with the wrong sign",
+     (_I, "dX = np.einsum('ijkl,jkl->ikl', invDF, x - F)",
+      "dX = np.einsum('ijkl,jkl->ikl', invDF, F - x)"), "C10-R5"),
+    ("Newton step applies the transposed inverse Jacobian",
+     (_I, "dX = np.einsum('ijkl,jkl->ikl', invDF, x - F)",
+      "dX = np.einsum('jikl,jkl->ikl', invDF, x - F)"), "C10-R5"),
+    ("Newton step subtracted",
+     (_I, "            X = np.clip(X + dX, 0., 1.)",
+      "            X = np.clip(X - dX, 0., 1.)"), "C10-R5"),
+    ("unconverged Newton iterate returned silently",
+     (_I, "        raise Exception((\"Newton iteration didn't converge \"\n"
+      "                         \"up to TOL={}\".format(newton_tol)))",
+      "        return X"), "C10-R5"),
+    ("Newton iterate clipped to the physical bounding box",
+     (_I, "            X = np.clip(X + dX, 0., 1.)",
+      "            X = np.clip(X + dX, 0., x.max())"), "C10-R5"),
     ("affine inverse: sign of one adjugate entry",
      (_A, "self._invA[0, 1] = -self.A[0, 1] / self.detA",
       "self._invA[0, 1] = self.A[0, 1] / self.detA"), "C10-R1"),
@@ -895,6 +1059,14 @@ MUTANTS = [
       "return (np.einsum('jik,jl', A, X).T + b.T).T"), "C10-R4"),
 ]
 TWINS = [
+    ("Newton stopping test on the max-norm of the step",
+     (_I, "            if (np.linalg.norm(dX, 1, (0, 2)) < newton_tol).all():",
+      "            if np.abs(dX).max() < newton_tol:"), None),
+    ("Newton stopping test on the residual relative to the cell size",
+     (_I, "            if (np.linalg.norm(dX, 1, (0, 2)) < newton_tol).all():",
+      "            if (np.linalg.norm(x - F, 1, (0, 2)) < newton_tol\n"
+      "                    * np.linalg.norm(self.DF(X, tind), 1, (0, 1, 3))"
+      ").all():"), None),
     ("affine determinant 2x2 with commuted factors",
      (_A, "                self._detA = (self.A[0, 0] * self.A[1, 1] -\n"
       "                              self.A[0, 1] * self.A[1, 0])",
